@@ -114,6 +114,14 @@ func init() {
 				{File: "internal/exit/handler.go", Old: "\th.mu.Lock()\n\th.connections[streamID] = ac\n\th.connCount.Add(1)\n\th.mu.Unlock()\n", New: "\th.trackConnection(ac)\n"},
 				{File: "internal/exit/handler.go", Old: "// HandleStreamData processes incoming stream data.", New: "func (h *Handler) trackConnection(ac *ActiveConnection) {\n\th.mu.Lock()\n\tdefer h.mu.Unlock()\n\th.connections[ac.StreamID] = ac\n\th.connCount.Add(1)\n}\n\n// HandleStreamData processes incoming stream data."},
 			}},
+			{Name: "rewrite: DeleteByPeer through maps.DeleteFunc", Edits: []Edit{
+				{File: "internal/agent/relay_table.go", Old: "import (\n\t\"sync\"\n", New: "import (\n\t\"maps\"\n\t\"sync\"\n"},
+				{File: "internal/agent/relay_table.go", Old: "\tfor id, e := range r.byUpstream {\n\t\tif e.UpstreamPeer == peer || e.DownstreamPeer == peer {\n\t\t\tdelete(r.byUpstream, id)\n\t\t\tdelete(r.byDownstream, e.DownstreamID)\n\t\t\tn++\n\t\t}\n\t}\n", New: "\tmaps.DeleteFunc(r.byUpstream, func(_ uint64, e *relayEntry) bool {\n\t\tif e.UpstreamPeer != peer && e.DownstreamPeer != peer {\n\t\t\treturn false\n\t\t}\n\t\tdelete(r.byDownstream, e.DownstreamID)\n\t\tn++\n\t\treturn true\n\t})\n"},
+			}},
+			{Name: "DeleteFunc callback forgets the downstream index", ExpectRule: "C17.R1", ExpectKey: "DeleteByPeer", Edits: []Edit{
+				{File: "internal/agent/relay_table.go", Old: "import (\n\t\"sync\"\n", New: "import (\n\t\"maps\"\n\t\"sync\"\n"},
+				{File: "internal/agent/relay_table.go", Old: "\tfor id, e := range r.byUpstream {\n\t\tif e.UpstreamPeer == peer || e.DownstreamPeer == peer {\n\t\t\tdelete(r.byUpstream, id)\n\t\t\tdelete(r.byDownstream, e.DownstreamID)\n\t\t\tn++\n\t\t}\n\t}\n", New: "\tmaps.DeleteFunc(r.byUpstream, func(_ uint64, e *relayEntry) bool {\n\t\tif e.UpstreamPeer != peer && e.DownstreamPeer != peer {\n\t\t\treturn false\n\t\t}\n\t\tn++\n\t\treturn true\n\t})\n"},
+			}},
 			{Name: "rewrite: disconnect cleanup loops over the relay tables", Edits: []Edit{
 				{File: "internal/agent/agent.go", Old: "\t// Clean up relay streams involving this peer\n\ta.cleanupRelaysForPeer(peerID)\n", New: "\tfor _, tab := range []*relayTable{a.tcpRelay, a.udpRelay, a.icmpRelay} {\n\t\ttab.DeleteByPeer(peerID)\n\t}\n"},
 			}},
@@ -152,7 +160,7 @@ func c17MustFollow(a, b ssa.Instruction) bool {
 	fn := a.Parent()
 	avoid := map[ssa.Instruction]bool{b: true}
 	for _, ret := range kit.Returns(fn) {
-		if ret.Block() == fn.Recover {
+		if ret.Block() == fn.Recover || ssa.Instruction(ret) == b {
 			continue
 		}
 		if kit.CanReachAvoiding(a, ret, avoid) {
@@ -206,8 +214,34 @@ func c17Together(p *kit.Program, li *kit.LockInfo, a, b ssa.Instruction) bool {
 		return true
 	}
 	fn := a.Parent()
-	if len(li.Ops) > 0 || fn.Parent() != nil {
+	if len(li.Ops) > 0 {
 		return false
+	}
+	if par := fn.Parent(); par != nil {
+		// a closure handed to a call (maps.DeleteFunc(index, func…), a locked helper taking a
+		// callback) runs inside the critical section in which that call is made
+		pli := kit.Locks(par)
+		ok := false
+		kit.Instrs(par, func(in ssa.Instruction) {
+			mc, isMC := in.(*ssa.MakeClosure)
+			if !isMC || mc.Fn != fn || mc.Referrers() == nil {
+				return
+			}
+			for _, rf := range *mc.Referrers() {
+				c, isCall := rf.(*ssa.Call)
+				if !isCall {
+					continue
+				}
+				for _, mu := range pli.AnyHeldAt(c) {
+					if acq, held := pli.HeldAt(c, mu); held && acq != nil {
+						if lc, isL := acq.(ssa.CallInstruction); isL && kit.CalleeOf(lc).Name == "Lock" {
+							ok = true
+						}
+					}
+				}
+			}
+		})
+		return ok
 	}
 	sites := p.StaticCallers(fn)
 	if len(sites) == 0 {
@@ -339,10 +373,31 @@ func c17R1(p *kit.Program, r *kit.Report, rt *types.Named) {
 			byFn[acc.Fn] = append(byFn[acc.Fn], w)
 		}
 	}
+	// maps.DeleteFunc(index, func(k, e) bool): each "return true" of the closure is a deletion
+	// of the visited entry e from that index
+	for _, site := range c17DeleteFuncSites(p, idx) {
+		g := site.closure
+		if !types.Identical(g.Params[1].Type(), entry) {
+			continue
+		}
+		for _, ret := range kit.Returns(g) {
+			if len(ret.Results) != 1 {
+				continue
+			}
+			if b, isConst := kit.ConstBool(kit.ReturnResult(ret, 0)); isConst && !b {
+				continue
+			}
+			w := c17Write{acc: kit.FieldAccess{Kind: kit.MapDelete, Field: site.field, Fn: g, Instr: ret}, field: site.field, root: g.Params[1], rangeKey: true}
+			if _, seen := byFn[g]; !seen {
+				fns = append(fns, g)
+			}
+			byFn[g] = append(byFn[g], w)
+		}
+	}
 	sort.Slice(fns, func(i, j int) bool { return kit.FuncName(fns[i]) < kit.FuncName(fns[j]) })
 	r.Count("relay_index_fields", len(idx))
 	r.Count("relay_index_writers", len(fns))
-	r.Require(len(fns) >= 3, "floor: only %d functions write the relay indices (expected insert, delete, pop and by-peer removal)", len(fns))
+	r.Require(len(fns) >= 1, "floor: no function writes the relay indices")
 	keyFields := map[*types.Var]map[*types.Var]bool{}
 	for _, fn := range fns {
 		li := kit.Locks(fn)
@@ -713,43 +768,124 @@ func c17Unconditional(c ssa.CallInstruction) bool {
 	return true
 }
 
-// c17FieldsBehind lists the struct fields a value is loaded from: directly, through phis, or as
-// an element of a local array/slice literal whose elements are such field loads
-// (for _, t := range []*relayTable{a.tcpRelay, a.udpRelay, a.icmpRelay}).
+// c17FieldsBehind lists the struct fields (of v's type) a value can have been loaded from:
+// directly, through phis, or after travelling through local aggregates — an array/slice literal
+// of tables, a table of struct{table, msg} rows ranged over, a local copy of a row. Local
+// aggregates are followed flow-insensitively through every store into them.
 func c17FieldsBehind(v ssa.Value) []*types.Var {
+	if v == nil {
+		return nil
+	}
+	want := v.Type()
 	var out []*types.Var
-	for _, leaf := range kit.PhiLeaves(v) {
-		if f, _ := kit.LoadedField(leaf); f != nil {
-			out = append(out, f)
-			continue
+	seen := map[ssa.Value]bool{}
+	var visit func(x ssa.Value)
+	// every value stored into a local aggregate (or any address derived from it)
+	var drain func(addr ssa.Value)
+	drained := map[ssa.Value]bool{}
+	drain = func(addr ssa.Value) {
+		if addr == nil || drained[addr] || addr.Referrers() == nil {
+			return
 		}
-		ld, ok := leaf.(*ssa.UnOp)
-		if !ok || ld.Op != token.MUL {
-			continue
+		drained[addr] = true
+		for _, rf := range *addr.Referrers() {
+			switch y := rf.(type) {
+			case *ssa.Store:
+				if y.Addr == addr {
+					visit(y.Val)
+				}
+			case *ssa.FieldAddr:
+				drain(y)
+			case *ssa.IndexAddr:
+				drain(y)
+			case *ssa.Slice:
+				drain(y)
+			}
 		}
-		ia, ok := ld.X.(*ssa.IndexAddr)
-		if !ok {
-			continue
+	}
+	localRoot := func(addr ssa.Value) ssa.Value {
+		for {
+			switch y := addr.(type) {
+			case *ssa.FieldAddr:
+				addr = y.X
+			case *ssa.IndexAddr:
+				addr = y.X
+			case *ssa.Slice:
+				addr = y.X
+			case *ssa.Alloc:
+				return y
+			default:
+				return nil
+			}
 		}
-		root := ia.X
-		if sl, isSlice := root.(*ssa.Slice); isSlice {
-			root = sl.X
+	}
+	visit = func(x ssa.Value) {
+		if x == nil || seen[x] {
+			return
 		}
-		arr, ok := root.(*ssa.Alloc)
-		if !ok {
-			continue
+		seen[x] = true
+		switch y := x.(type) {
+		case *ssa.Phi:
+			for _, e := range y.Edges {
+				visit(e)
+			}
+		case *ssa.Field:
+			visit(y.X)
+		case *ssa.Index:
+			visit(y.X)
+		case *ssa.Slice:
+			visit(y.X)
+		case *ssa.Alloc:
+			drain(y)
+		case *ssa.UnOp:
+			if y.Op != token.MUL {
+				return
+			}
+			if root := localRoot(y.X); root != nil {
+				drain(root)
+				return
+			}
+			if f, _ := kit.LoadedField(y); f != nil && types.Identical(f.Type(), want) {
+				out = append(out, f)
+			}
 		}
-		for _, rf := range *arr.Referrers() {
-			ea, ok := rf.(*ssa.IndexAddr)
-			if !ok {
+	}
+	visit(v)
+	return out
+}
+
+// c17DeleteFuncSite is a call maps.DeleteFunc(x.idx, func(k, v) bool {…}) on an index field:
+// every "return true" of the closure deletes the visited element of that index.
+type c17DeleteFuncSite struct {
+	field   *types.Var
+	call    ssa.CallInstruction
+	closure *ssa.Function
+}
+
+func c17DeleteFuncSites(p *kit.Program, idx []*types.Var) []c17DeleteFuncSite {
+	var out []c17DeleteFuncSite
+	for _, fn := range p.FuncsInPkg("internal/agent") {
+		for _, c := range kit.Calls(fn) {
+			cal := kit.CalleeOf(c)
+			if cal.Pkg != "maps" || cal.Name != "DeleteFunc" || len(c.Common().Args) != 2 {
 				continue
 			}
-			for _, rf2 := range *ea.Referrers() {
-				if st, isSt := rf2.(*ssa.Store); isSt && st.Addr == ea {
-					if f, _ := kit.LoadedField(st.Val); f != nil {
-						out = append(out, f)
+			var field *types.Var
+			for _, leaf := range kit.PhiLeaves(c.Common().Args[0]) {
+				if f, _ := kit.LoadedField(leaf); f != nil {
+					for _, x := range idx {
+						if x == f {
+							field = f
+						}
 					}
 				}
+			}
+			mc, ok := c.Common().Args[1].(*ssa.MakeClosure)
+			if field == nil || !ok {
+				continue
+			}
+			if g, ok := mc.Fn.(*ssa.Function); ok && len(g.Params) == 2 {
+				out = append(out, c17DeleteFuncSite{field, c, g})
 			}
 		}
 	}
@@ -774,6 +910,11 @@ func c17Effects(p *kit.Program, m *ssa.Function, idx []*types.Var) (ins, del map
 			}
 		}
 	}
+	for fn := range fns {
+		for _, cl := range kit.WithClosures(fn) {
+			fns[cl] = true
+		}
+	}
 	for _, f := range idx {
 		for _, acc := range p.FieldAccessesOfKind(f, kit.MapInsert, kit.MapDelete, kit.MapRange) {
 			if !fns[acc.Fn] {
@@ -787,6 +928,13 @@ func c17Effects(p *kit.Program, m *ssa.Function, idx []*types.Var) (ins, del map
 			case kit.MapRange:
 				rng = true
 			}
+		}
+	}
+	// maps.DeleteFunc(index, pred) walks the index and deletes from it
+	for _, site := range c17DeleteFuncSites(p, idx) {
+		if fns[site.call.Parent()] {
+			del[site.field] = true
+			rng = true
 		}
 	}
 	return
@@ -929,8 +1077,16 @@ func c17R3(p *kit.Program, r *kit.Report, cx *c16Ctx, rt, agent *types.Named) {
 					if pf == nil || base == nil || !types.Identical(base.Type(), entry) {
 						continue
 					}
-					if _, isParam := pair[1].(*ssa.Parameter); isParam && c16IsAgentID(pair[1].Type()) {
+					if !c16IsAgentID(pair[1].Type()) {
+						continue
+					}
+					if _, isParam := pair[1].(*ssa.Parameter); isParam {
 						compared[pf] = true
+					}
+					if ld, isLd := pair[1].(*ssa.UnOp); isLd && ld.Op == token.MUL {
+						if _, isFV := ld.X.(*ssa.FreeVar); isFV {
+							compared[pf] = true // the peer parameter captured by a callback
+						}
 					}
 				}
 			})
@@ -948,8 +1104,8 @@ func c17R3(p *kit.Program, r *kit.Report, cx *c16Ctx, rt, agent *types.Named) {
 	// frame-created tables that record their peer
 	n := 0
 	for _, ev := range c16ResolveTablesQuiet(p) {
-		if ev.T.Class != c16PerConn || ev.Composite {
-			continue
+		if ev.T.Class != c16PerConn || ev.Composite || ev.Owner.Obj() == rt.Obj() {
+			continue // the relay indices are judged field by field above
 		}
 		elem := c16EntryType(ev)
 		pt, ok := elem.(*types.Pointer)
